@@ -1436,9 +1436,23 @@ class SpaceManager(SharedSpaceOperations):
 
         old_name = cells.name
 
+        targets = []
         for space in self._get_subs(cells.parent, skip_self=False):
+            c = space.cells[old_name]
+            if c is not cells:
+                if c.is_defined():
+                    continue    # the sub space's own cells keeps its name
+                if self.get_deriv_bases(c, defined_only=True)[0] is not cells:
+                    continue    # derived from another cells of that name
+            targets.append((space, c))
+
+        for space, c in targets:
             space.clear_subs_rootitems()
-            space.cells[old_name].on_rename(name)
+            c.on_rename(name)
+
+        # Sub spaces may now derive the old name from another base,
+        # and the new name beside an own cells of the old name
+        self.update_subs(cells.parent)
 
     def sort_cells(self, space):
         """Sort cells in a space
